@@ -188,6 +188,7 @@ type codegen struct {
 	constTypes map[string]ast.Expr
 	white      []fnKey
 	whiteSet   map[fnKey]bool
+	footprints map[fnKey]*footprint // code_parse.go: element-write footprints of mutating methods
 	mutates    map[fnKey]bool
 	refl       map[string]*reflInfo
 	structUse  []string // structures needed, dependency order
